@@ -168,3 +168,143 @@ if __name__ == "__main__":
         print(name)
         for g in gs:
             print("    ", g)
+
+
+# --------------------------------------------------------------------------------------
+# Regenerated CONTROL SKELETONS (extension round): for selected functions the guard-relevant slice of the body as a
+# prefix token stream  list (string * string)  that Model/ValidationSkel.v decodes into a statement tree and EXECUTES
+# against the input abstraction; Properties/C18.v proves  exec (regenerated skeleton) = hand-written api_*  for all inputs.
+# A guard that is moved into another branch/loop, reordered, dropped or duplicated changes the skeleton and thereby
+# breaks that theorem even when no guard TEXT changes.
+#
+# slice kept:  raise ValueError | return | if/elif/else and for loops that contain a kept statement | try whose handler
+#              raises ValueError | statements that call a function of the WATCH list (own validation model)
+# tests:       and / or / not / any(<e> for v in <coll>) are structural, every other sub-expression is an ATOM (its
+#              ast.unparse text), interpreted over the abstraction by the hand-written tables in Model/ValidationSkel.v
+# tokens:      ("raise","") ("return","") ("call",f) ("try","except T: body") ("if","") <test> ("then","") <stmts>
+#              ("else","") <stmts> ("end","")   ("for","target in iter") <stmts> ("end","")
+#              test: ("atom",t) | ("not","") e | ("and","") e e | ("or","") e e | ("any",var) ("in",coll) e
+# --------------------------------------------------------------------------------------
+SKEL_TARGETS = [
+    ("cutting_decomposition.py", "partition_problem"),
+    ("cutting_reconstruction.py", "reconstruct_expectation_values"),
+    ("utils/simulation.py", "simulate_statevector_outcomes"),
+]
+WATCH = {"_partition_labels_from_circuit", "partition_circuit_qubits", "separate_circuit", "decompose_observables",
+         "_validate_qpd_instructions", "_decompose_qpd_instructions", "generate_qpd_weights", "cut_gates"}
+
+
+class SkelShape(Exception):
+    pass
+
+
+def _test_tokens(e):
+    if isinstance(e, ast.BoolOp):
+        tag = "and" if isinstance(e.op, ast.And) else "or"
+        vals = list(e.values)
+        out = []
+        for v in vals[:-1]:
+            out.append((tag, ""))
+            out += _test_tokens(v)
+        return out + _test_tokens(vals[-1])
+    if isinstance(e, ast.UnaryOp) and isinstance(e.op, ast.Not):
+        return [("not", "")] + _test_tokens(e.operand)
+    if (isinstance(e, ast.Call) and isinstance(e.func, ast.Name) and e.func.id == "any" and len(e.args) == 1
+            and not e.keywords and isinstance(e.args[0], ast.GeneratorExp)):
+        g = e.args[0]
+        if len(g.generators) != 1 or g.generators[0].ifs or g.generators[0].is_async:
+            raise SkelShape("unsupported generator in any()")
+        return ([("any", ast.unparse(g.generators[0].target)), ("in", ast.unparse(g.generators[0].iter))]
+                + _test_tokens(g.elt))
+    return [("atom", ast.unparse(e))]
+
+
+def _calls_watched(s):
+    names = []
+    for n in ast.walk(s):
+        if isinstance(n, ast.Call):
+            f = n.func
+            nm = f.id if isinstance(f, ast.Name) else (f.attr if isinstance(f, ast.Attribute) else None)
+            if nm in WATCH:
+                names.append((n.lineno, n.col_offset, nm))
+    return [nm for _, _, nm in sorted(names)]
+
+
+def _stmts_tokens(stmts):
+    out = []
+    for s in stmts:
+        if isinstance(s, (ast.FunctionDef, ast.AsyncFunctionDef, ast.ClassDef)):
+            continue
+        if _is_value_error_raise(s):
+            out.append(("raise", ""))
+        elif isinstance(s, ast.Raise):
+            raise SkelShape("raise of another exception type inside a skeleton target")
+        elif isinstance(s, ast.Return):
+            out.append(("return", ""))
+        elif isinstance(s, ast.If):
+            b, o = _stmts_tokens(s.body), _stmts_tokens(s.orelse)
+            if b or o:
+                out += [("if", "")] + _test_tokens(s.test) + [("then", "")] + b + [("else", "")] + o + [("end", "")]
+        elif isinstance(s, (ast.For, ast.While)):
+            if isinstance(s, ast.While) or s.orelse:
+                if _stmts_tokens(s.body) or _stmts_tokens(s.orelse):
+                    raise SkelShape("while / for-else with guard-relevant content")
+                continue
+            b = _stmts_tokens(s.body)
+            if b:
+                out += [("for", f"{ast.unparse(s.target)} in {ast.unparse(s.iter)}")] + b + [("end", "")]
+        elif isinstance(s, ast.Try):
+            hs = [h for h in s.handlers if any(_is_value_error_raise(x) for x in h.body)]
+            if _stmts_tokens(s.body) or _stmts_tokens(s.orelse) or _stmts_tokens(s.finalbody) or len(hs) != len(s.handlers):
+                if hs or _stmts_tokens(s.body) or _stmts_tokens(s.orelse) or _stmts_tokens(s.finalbody):
+                    raise SkelShape("try statement of an unsupported shape")
+            for h in hs:
+                out.append(("try", f"except {ast.unparse(h.type)}: " + "; ".join(ast.unparse(b) for b in s.body)))
+        elif isinstance(s, (ast.With, ast.AsyncWith)):
+            out += _stmts_tokens(s.body)
+        else:
+            for nm in _calls_watched(s):
+                out.append(("call", nm))
+            for ch in ast.walk(s):
+                if isinstance(ch, (ast.Raise, ast.Return)) and ch is not s:
+                    raise SkelShape("raise/return in an unrecognised position")
+    # a trailing plain `return` at the very end of the function carries no information: kept anyway (uniform)
+    return out
+
+
+def skeleton_table():
+    table = []
+    for rel, qn in SKEL_TARGETS:
+        tree, _ = parse(rel)
+        defs = [node for name, node in _functions(tree) if name == qn]
+        if len(defs) != 1:
+            raise LookupError(f"{rel}:{qn}: expected exactly one definition")
+        table.append((rel[:-3].replace("/", ".") + ":" + qn, _stmts_tokens(defs[0].body)))
+    return table
+
+
+SKEL_SENTINEL = '[("<EXTRACTION-FAILED>"%string, [("<EXTRACTION-FAILED>"%string, ""%string)])]'
+
+
+def fact_c18_skeletons():
+    try:
+        t = skeleton_table()
+        return coq_list(["(" + coq_string(name) + ", " + coq_list(["(" + coq_string(a) + ", " + coq_string(b) + ")" for a, b in toks]) + ")"
+                         for name, toks in t])
+    except Exception:  # noqa: BLE001  fail closed
+        return SKEL_SENTINEL
+
+
+FACTS.append(("c18_skeletons", "list (string * list (string * string))", fact_c18_skeletons))
+
+if __name__ == "__main__":
+    print()
+    for name, toks in skeleton_table():
+        print(name)
+        depth = 1
+        for a, b in toks:
+            if a in ("end", "else", "then"):
+                depth -= 1 if a != "then" else 0
+            print("    " * depth + a + (" " + b if b else ""))
+            if a in ("for", "then", "else"):
+                depth += 1 if a != "then" else 0
